@@ -9,7 +9,8 @@
    the Go code and the model ([open_reload]: an Open now loads a version that
    was current during the call, or fails), R1 and R3 in the predicate ([cx_clr]
    at every ERet, RNoStack tolerated).  With these the statements hold for every
-   modelled script, which is what is proved here.
+   script (all api operations: also two-table additions, range compactions and
+   Clean), which is what is proved here.
 
    Structure
      1. lists, is_perm_prefix
@@ -310,6 +311,73 @@ Proof.
     vop. intros r6. cbn [rd_step okv]. apply Hdone, I1.
 Qed.
 
+Lemma add_multi_okv : forall att tx same m rd, In (mnames m) rd ->
+  okv rd (add_multi att tx same m) (Pv rd).
+Proof.
+  intros att tx same m rd Hm. unfold add_multi.
+  assert (Hdone : forall rd' (r : apires), incl rd rd' -> Pv rd rd' (m, r)).
+  { intros rd' b H. split; [exact H|]. apply H. exact Hm. }
+  vop. intros r. cbn [rd_step].
+  destruct r; try (cbn [okv]; apply Hdone, incl_refl).
+  vop. intros c. cbn [rd_step].
+  change (match c with SNames (Some l) => l | _ => [] end) with (lnames c).
+  set (rd1 := lnames c :: rd). assert (I1 : incl rd rd1) by apply incl_tl, incl_refl.
+  destruct (negb (names_eqb (lnames c) (mnames m))).
+  { vop. intros r1. cbn [rd_step okv]. apply Hdone, I1. }
+  vop. intros t. cbn [rd_step].
+  destruct t; try (vop; intros ?; cbn [rd_step okv]; apply Hdone, I1).
+  vop. intros r5. cbn [rd_step].
+  vop. intros nw. cbn [rd_step].
+  destruct nw; try (vop; intros ?; cbn [rd_step okv]; apply Hdone, I1).
+  vop. intros r7. cbn [rd_step].
+  vop. intros t2. cbn [rd_step].
+  destruct t2; try (vop; intros ?; cbn [rd_step]; vop; intros ?; cbn [rd_step okv]; apply Hdone, I1).
+  destruct same.
+  - vop. intros r8. cbn [rd_step]. vop. intros r9. cbn [rd_step]. vop. intros r10. cbn [rd_step okv].
+    apply Hdone, I1.
+  - vop. intros r8. cbn [rd_step]. vop. intros r9. cbn [rd_step]. vop. intros nw2. cbn [rd_step].
+    destruct nw2; try (vop; intros ?; cbn [rd_step]; vop; intros ?; cbn [rd_step okv]; apply Hdone, I1).
+    vop. intros r11. cbn [rd_step]. vop. intros r12. cbn [rd_step].
+    eapply okv_bind; [apply reload_okv; apply I1; exact Hm|]. cbn beta. intros rd2 rl [I2 H2].
+    cbn [okv]. split; [|exact H2]. intros x Hx. apply I2, I1. exact Hx.
+Qed.
+
+Lemma clean_loop_okv : forall fuel cands mx rd, okv rd (clean_loop fuel cands mx) (fun rd' _ => rd' = rd).
+Proof.
+  induction fuel as [|f IH]; intros cands mx rd.
+  - destruct cands; reflexivity.
+  - destruct cands as [|c cands]; [reflexivity|]. cbn [clean_loop].
+    vop. intros rs. cbn [rd_step]. destruct rs as [| | | | | | | |n o|]; try reflexivity.
+    destruct o as [tf|]; [|apply IH].
+    destruct (tf_max tf <=? mx)%N; [|apply IH].
+    vop. intros r2. cbn [rd_step]. apply IH.
+Qed.
+
+Lemma clean_okv : forall att m rd, In (mnames m) rd ->
+  okv rd (clean att m) (Pv rd).
+Proof.
+  intros att m rd Hm. unfold clean.
+  assert (Hdone : forall rd' (r : apires), incl rd rd' -> Pv rd rd' (m, r)).
+  { intros rd' b H. split; [exact H|]. apply H. exact Hm. }
+  vop. intros r. cbn [rd_step].
+  destruct r; try (cbn [okv]; apply Hdone, incl_refl).
+  vop. intros c. cbn [rd_step].
+  change (match c with SNames (Some l) => l | _ => [] end) with (lnames c).
+  set (rd1 := lnames c :: rd). assert (I1 : incl rd rd1) by apply incl_tl, incl_refl.
+  destruct (negb (names_eqb (lnames c) (mnames m))).
+  { vop. intros r1. cbn [rd_step okv]. apply Hdone, I1. }
+  eapply okv_bind; [apply reload_okv; apply I1; exact Hm|]. cbn beta. intros rd2 rl [I2 H2].
+  assert (Hfin : forall (r : apires), Pv rd rd2 (fst rl, r)).
+  { intro r. split; [|exact H2]. intros x Hx. apply I2, I1. exact Hx. }
+  destruct (snd rl).
+  - vop. intros dres. cbn [rd_step].
+    destruct (fst rl) as [|x m'].
+    + vop. intros r3. cbn [rd_step okv]. apply Hfin.
+    + eapply okv_bind; [apply clean_loop_okv|]. cbn beta. intros rd3 _ ->.
+      vop. intros r3. cbn [rd_step okv]. apply Hfin.
+  - vop. intros r3. cbn [rd_step okv]. apply Hfin.
+Qed.
+
 Lemma close_okv : forall m rd, okv rd (close m) (fun _ _ => True).
 Proof.
   intros m rd. unfold close. vop. intros rs. cbn [rd_step].
@@ -357,7 +425,8 @@ Proof.
     destruct m as [mm|]; [|apply Hnone; discriminate].
     apply (Hwrap _ mm _ (fun r => snd r)); try discriminate; [reflexivity|]. apply add_okv. left. reflexivity.
   - (* AddMulti *)
-    destruct m as [mm|]; [|apply Hnone; discriminate]. cbn [okv]. apply Hsame; try discriminate. reflexivity.
+    destruct m as [mm|]; [|apply Hnone; discriminate].
+    apply (Hwrap _ mm _ (fun r => snd r)); try discriminate; [reflexivity|]. apply add_multi_okv. left. reflexivity.
   - (* AddEmpty *)
     destruct m as [mm|]; [|apply Hnone; discriminate].
     apply (Hwrap _ mm _ (fun r => snd r)); try discriminate; [reflexivity|]. apply add_okv. left. reflexivity.
@@ -368,6 +437,11 @@ Proof.
     destruct m as [mm|]; [|apply Hnone; discriminate].
     destruct mm as [|x mm]; [cbn [okv]; apply Hsame; try discriminate; reflexivity|].
     apply (Hwrap _ (x :: mm) _ (fun _ => ROk)); try discriminate; [reflexivity|].
+    apply compact_range_okv. left. reflexivity.
+  - (* Compact *)
+    destruct m as [mm|]; [|apply Hnone; discriminate].
+    destruct (Nat.ltb last (length mm) && Nat.leb first last); [|cbn [okv]; apply Hsame; try discriminate; reflexivity].
+    apply (Hwrap _ mm _ (fun _ => ROk)); try discriminate; [reflexivity|].
     apply compact_range_okv. left. reflexivity.
   - (* Expire *)
     destruct m as [mm|]; [|apply Hnone; discriminate].
@@ -383,7 +457,8 @@ Proof.
     + cbn [fst]. intros y E. inversion E; subst. left. reflexivity.
     + intros; discriminate.
   - (* Clean *)
-    destruct m as [mm|]; [|apply Hnone; discriminate]. cbn [okv]. apply Hsame; try discriminate. reflexivity.
+    destruct m as [mm|]; [|apply Hnone; discriminate].
+    apply (Hwrap _ mm _ (fun r => snd r)); try discriminate; [reflexivity|]. apply clean_okv. left. reflexivity.
 Qed.
 
 (* ------------------------------------------------------------------ *)
@@ -769,7 +844,7 @@ Proof.
   { intro E. inversion E; subst. exists γ, st, cx. split; [split; [exact HG|split; assumption]|].
     split; [split; assumption|]. reflexivity. }
   destruct (nth_error (w_handles w) h) as [hd|] eqn:En; [|apply Hnop; congruence].
-  destruct (Hh h hd En) as (Hscr & Hmem & Hpc).
+  destruct (Hh h hd En) as (Hmem & Hpc).
   destruct (Hxh h hd En) as (Hxm & Hxpc).
   assert (Hothers : forall i hd', i <> h -> nth_error (w_handles w) i = Some hd' -> hinv γ (w_fs w) st i hd')
     by (intros i hd' _ E; apply Hh; exact E).
@@ -778,13 +853,12 @@ Proof.
   destruct (h_pc hd) as [|o p|] eqn:Epc; [| |apply Hnop; congruence].
   - (* a call starts *)
     destruct (h_script hd) as [|o rest] eqn:Es; [apply Hnop; congruence|].
-    cbn [forallb] in Hscr. apply andb_true_iff in Hscr as [Hmod Hrest].
-    pose proof (@call_prog_ok att o (h_mem hd) Hmod) as Hok.
+    pose proof (@call_prog_ok att o (h_mem hd)) as Hok.
     pose proof (@interp_init γ (w_fs w) h o (h_mem hd) HG Hmem) as HI.
     destruct Hpc as [Hp0 Hd0].
     set (st1 := st_call h o st). set (cx1 := cx_call h o cx).
     assert (Hp1 : assoc h (c4_pending st1) = pd (lg_init o (h_mem hd))).
-    { unfold st1. destruct o; cbn; try exact Hp0; try discriminate Hmod. rewrite Nat.eqb_refl. reflexivity. }
+    { unfold st1. destruct o; cbn; try exact Hp0; rewrite Nat.eqb_refl; reflexivity. }
     assert (Hd1 : assoc h (c4_done st1) = dn (lg_init o (h_mem hd))).
     { unfold st1. destruct o; cbn; try exact Hd0; apply assoc_unassoc_eq. }
     assert (Hc1 : c4_commits st1 = txs_of γ (w_fs w)) by (unfold st1; rewrite st_call_commits; exact Hc).
@@ -799,7 +873,7 @@ Proof.
     fold st1 cx1 in XG1, XO1, XR1, XM1.
     destruct (call_prog att o (h_mem hd)) as [[m r]|q k] eqn:Ecp.
     + inversion H; subst w' evs. clear H.
-      destruct (@finish_inv γ (w_fs w) st1 (w_handles w) h o m r _ rest HG Hc1 Ho1 HI Hok Hd1 Hrest)
+      destruct (@finish_inv γ (w_fs w) st1 (w_handles w) h o m r _ rest HG Hc1 Ho1 HI Hok Hd1)
         as (W & _ & _).
       destruct (x_finish γ (w_fs w) st1 cx1 (w_handles w) h o (h_mem hd) m r rest HG XG1 XO1 XR1) as [cx' [XI XL]].
       { intros mm E. split; [apply XM1; exact E|apply Hmem; exact E]. }
@@ -808,7 +882,7 @@ Proof.
     + inversion H; subst w' evs. clear H.
       exists γ, st1, cx1. split; [|split].
       * apply winv_set; auto.
-        split; [exact Hrest|]. split; [exact Hmem|]. cbn [h_pc].
+        split; [exact Hmem|]. cbn [h_pc].
         exists (lg_init o (h_mem hd)). auto.
       * apply xinv_set; auto. split; [exact XM1|]. cbn [h_pc h_mem]. exact XR1.
       * intros rest'. cbn [app]. apply c10_call.
@@ -817,7 +891,7 @@ Proof.
     destruct p as [[m r]|q k].
     + (* the call returns *)
       inversion H; subst w' evs. clear H.
-      destruct (@finish_inv γ (w_fs w) st (w_handles w) h o m r lg (h_script hd) HG Hc Hothers HI Hok Hd0 Hscr)
+      destruct (@finish_inv γ (w_fs w) st (w_handles w) h o m r lg (h_script hd) HG Hc Hothers HI Hok Hd0)
         as (W & _ & _).
       destruct (x_finish γ (w_fs w) st cx (w_handles w) h o (h_mem hd) m r (h_script hd) HG HXG Hxothers Hxpc)
         as [cx' [XI XL]].
@@ -856,7 +930,7 @@ Proof.
       set (cx1 := cx_snap (listed_fs s') (cx_req q h cx)) in *.
       destruct (k rs) as [[m r]|q' k'] eqn:Ek.
       * inversion H; subst w' evs. clear H. cbn [ok] in Hk.
-        destruct (@finish_inv γ' s' st1 (w_handles w) h o m r _ (h_script hd) (sp_GI SP) Hc1 Ho1 (sp_interp SP) Hk Hd1 Hscr)
+        destruct (@finish_inv γ' s' st1 (w_handles w) h o m r _ (h_script hd) (sp_GI SP) Hc1 Ho1 (sp_interp SP) Hk Hd1)
           as (W & _ & _).
         destruct (x_finish γ' s' st1 cx1 (w_handles w) h o (h_mem hd) m r (h_script hd) (sp_GI SP) XG1 XO1 XR1)
           as [cx' [XI XL]].
@@ -868,7 +942,7 @@ Proof.
         exists γ', st1, cx1. split; [|split].
         -- apply winv_set; auto.
            ++ apply (sp_GI SP).
-           ++ split; [exact Hscr|]. split.
+           ++ split.
               ** cbn [h_mem]. intros mm E. eapply memok_stable; [exact HG|apply (sp_frame SP)|]. apply Hmem. exact E.
               ** cbn [h_pc]. exists (nxt lg q rs). split; [apply (sp_interp SP)|]. auto.
         -- apply xinv_set; auto. split; [exact XM1|]. cbn [h_pc h_mem]. exact XR1.
@@ -933,23 +1007,23 @@ Qed.
 
 (* property C10: a handle's view is one committed snapshot and stays readable under churn *)
 Theorem c10_all_traces : forall size_oracle attempts tabs scripts sched,
-  init_ok tabs -> Forall (fun s => forallb modelled s = true) scripts ->
+  init_ok tabs ->
   c10_ok (trace_of size_oracle attempts tabs scripts sched) = true.
 Proof.
-  intros so att tabs scripts sched Hi Hs. unfold c10_ok, trace_of.
+  intros so att tabs scripts sched Hi. unfold c10_ok, trace_of.
   destruct (run so att (init_world tabs scripts) sched) as [w' evs] eqn:E. cbn [snd].
   change (c10_loop false (cx_init tabs) evs = true).
-  exact (run_x so att sched _ _ _ _ _ _ (@WInv_init tabs scripts Hi Hs) (XInv_init tabs scripts Hi) E).
+  exact (run_x so att sched _ _ _ _ _ _ (@WInv_init tabs scripts Hi) (XInv_init tabs scripts Hi) E).
 Qed.
 
 (* property C06: crash atomicity (c06_ok = c04_ok && c05_ok && c10_ok, on traces that may contain crashes) *)
 Theorem c06_all_traces : forall size_oracle attempts tabs scripts sched,
-  init_ok tabs -> Forall (fun s => forallb modelled s = true) scripts ->
+  init_ok tabs ->
   c06_ok (trace_of size_oracle attempts tabs scripts sched) = true.
 Proof.
-  intros so att tabs scripts sched Hi Hs. unfold c06_ok.
-  rewrite (@c04_all_traces so att tabs scripts sched Hi Hs), (@c05_all_traces so att tabs scripts sched Hi Hs),
-          (c10_all_traces so att tabs scripts sched Hi Hs). reflexivity.
+  intros so att tabs scripts sched Hi. unfold c06_ok.
+  rewrite (@c04_all_traces so att tabs scripts sched Hi), (@c05_all_traces so att tabs scripts sched Hi),
+          (c10_all_traces so att tabs scripts sched Hi). reflexivity.
 Qed.
 
 Print Assumptions c10_all_traces.
